@@ -1,6 +1,7 @@
 import RV.C16.Model
 import RV.C16.Spec
 import RV.C16.Text
+import RV.C16.Doc
 import RV.Base.Proto
 /-
   C16 driver.  One operation per line, tokens separated by blanks.
@@ -40,6 +41,10 @@ import RV.Base.Proto
     xdoc-texts / xdoc-attrs <s>* -> XTEXT <s>* / XATTR <s>*        the same, for the harness to assemble a document from
     xtext-read <s>*             -> = (ok:<s> | err:ParseError)*   xmlReadContent on the character data of one element
     xattr-read <s>*             -> = (ok:<s> | err:ParseError)*   xmlReadAttr on a quoted attribute value
+    jdoc-parse <s>              -> ok <Json> | err:<Kind>         jsonParse (a whole JSON document)
+    jdoc-of <s>                 -> ok <Result> | err:<Kind>       ofJson (jsonParse text)
+    jdoc-write <Result>         -> JDOC <s>                       jsonWrite (toJson r)
+    jdoc-dumps <Json>           -> = <s>                          jsonWrite
     ctext-parse <s>             -> ok <Table> | err:<Kind>        csvParse (a whole CSV document)
     ctext-of <s>                -> ok <Result> | err:<Kind>       ofCsv (csvParse text)
     ctext-write <Result>        -> CTEXT <s> | err:<Kind>         csvWrite (toCsv r)
@@ -346,6 +351,19 @@ def step (_ : Unit) : List String → Unit × String
       match xmlReadAttr s with
       | some (x, []) => "ok:" ++ encStr x
       | _ => "err:ParseError"))
+  | ["jdoc-parse", w] =>
+    match decStr w with
+    | some t => ((), match jsonParse t with | .ok j => " ".intercalate ("ok" :: encJson j) | .error e => "err:" ++ encErr e)
+    | none => ((), "bad-op")
+  | ["jdoc-of", w] =>
+    match decStr w with
+    | some t => ((), match jsonParse t with | .ok j => encOut (ofJson j) | .error e => "err:" ++ encErr e)
+    | none => ((), "bad-op")
+  | "jdoc-write" :: ws => ((), withResult ws (fun r => "JDOC " ++ encStr (jsonWrite (toJson r))))
+  | "jdoc-dumps" :: ws =>
+    match decJson ws with
+    | some (j, []) => ((), "= " ++ encStr (jsonWrite j))
+    | _ => ((), "bad-op")
   | ["ctext-parse", w] =>
     match decStr w with
     | some t => ((), match csvParse t with | .ok tb => "ok " ++ encTable tb | .error e => "err:" ++ encErr e)
